@@ -15,14 +15,15 @@ import tk
 
 NONE = -1000000
 FORMS = {"copy": "{A}", "add": "{A}+{B}", "mul2": "{A}*2", "rsub": "3-{A}", "int": "I{{{A}}}",
-         "sum": "SUM{{{A}}}", "nest": "{A}*{B}-({A}+1)", "lit": "4"}
+         "sum": "SUM{{{A}}}", "nest": "{A}*{B}-({A}+1)", "lit": "4",
+         "aggr": "2*({A}+{B})+MAX{{{A}}}"}
 ALL = {"Ops1": ["IDENTITY", "INTEGRATOR", "REVERSER", "SHIFT_CIRCULAR_RIGHT", "INVERTER"],
        "Ops2": ["ADDER", "SUBSTRACTER", "MULTIPLIER"],
        "OpsS": ["SCALAR_ADDER", "SCALAR_MULTIPLIER", "SCALAR_REV_SUBSTRACTER", "SHIFT_CIRCULAR"],
        "OpsA": ["SUM", "MIN", "MAX", "ARGMAX"],
-       "Forms": ["copy", "add", "mul2", "rsub", "int", "sum", "nest", "lit"]}
+       "Forms": ["copy", "add", "mul2", "rsub", "int", "sum", "nest", "lit", "aggr"]}
 SMALL = {"Ops1": ["INTEGRATOR", "REVERSER"], "Ops2": ["SUBSTRACTER"], "OpsS": ["SCALAR_ADDER"],
-         "OpsA": ["SUM"], "Forms": ["copy", "add", "nest", "lit"]}
+         "OpsA": ["SUM"], "Forms": ["copy", "add", "nest", "lit", "aggr"]}
 
 
 def cfg(n, names, maxlevel, emit, alpha, props=True):
